@@ -131,7 +131,13 @@ type running struct {
 	s    *server.Server
 	addr string
 	node *ua.NodeID
+	// discovery of this server failed before (detail); further rows of the
+	// same server are not retried
+	discFailed string
 }
+
+// a discovery failure was already seen in this run: later servers get one attempt
+var discoveryFailedBefore bool
 
 // startServer starts a real server that enables exactly (policy, mode) with
 // the anonymous and username token types and one writable variable.
@@ -146,7 +152,7 @@ func (e *env) startServer(k srvKey) (*running, error) {
 			server.EnableSecurity(k.pol, k.mode),
 			server.EnableAuthMode(ua.UserTokenTypeAnonymous),
 			server.EnableAuthMode(ua.UserTokenTypeUserName),
-			server.EndPoint("localhost", port),
+			server.EndPoint("127.0.0.1", port),
 		}
 		if k.extra != "-" {
 			opts = append(opts, server.EnableSecurity(k.extra, ua.MessageSecurityModeSignAndEncrypt))
@@ -170,7 +176,7 @@ func (e *env) startServer(k srvKey) (*running, error) {
 			lastErr = err
 			continue
 		}
-		return &running{s: s, addr: fmt.Sprintf("opc.tcp://localhost:%d", port), node: ua.NewStringNodeID(ns.ID(), "rw_int32")}, nil
+		return &running{s: s, addr: fmt.Sprintf("opc.tcp://127.0.0.1:%d", port), node: ua.NewStringNodeID(ns.ID(), "rw_int32")}, nil
 	}
 	return nil, lastErr
 }
@@ -178,7 +184,7 @@ func (e *env) startServer(k srvKey) (*running, error) {
 // connect runs the whole pipeline for one configuration against a running
 // server and reports the first stage that fails ("ok" if none).
 func (e *env) connect(c cfg, srv *running, val int32) (res string, detail string) {
-	ctx, cancel := context.WithTimeout(context.Background(), 30*time.Second)
+	ctx, cancel := context.WithTimeout(context.Background(), 90*time.Second)
 	defer cancel()
 	defer func() {
 		if p := recover(); p != nil {
@@ -187,15 +193,28 @@ func (e *env) connect(c cfg, srv *running, val int32) (res string, detail string
 	}()
 	var eps []*ua.EndpointDescription
 	var err error
+	// discovery the way a client does it (opcua.GetEndpoints: unsecured channel,
+	// GetEndpoints service). Each attempt has its own generous deadline; a server
+	// that never answers within 3 x 10 s is a discovery failure.
+	if srv.discFailed != "" {
+		return "fail:discovery", srv.discFailed
+	}
 	for i := 0; ; i++ {
-		eps, err = opcua.GetEndpoints(ctx, srv.addr)
+		actx, acancel := context.WithTimeout(ctx, 10*time.Second)
+		eps, err = opcua.GetEndpoints(actx, srv.addr)
+		acancel()
 		if err == nil {
 			break
 		}
-		if i > 40 {
-			return "fail:discovery", err.Error()
+		if strings.Contains(err.Error(), "lookup ") {
+			return "infra", "discovery: " + err.Error()
 		}
-		time.Sleep(25 * time.Millisecond)
+		if i >= 2 || discoveryFailedBefore {
+			discoveryFailedBefore = true
+			srv.discFailed = err.Error() + " (opcua.GetEndpoints over the unsecured discovery channel got no answer)"
+			return "fail:discovery", srv.discFailed
+		}
+		time.Sleep(50 * time.Millisecond)
 	}
 	uri := ua.SecurityPolicyURIPrefix + c.pol
 	var ep *ua.EndpointDescription
